@@ -271,3 +271,38 @@ Theorem rn_cmp_spec_sturm (fuel : nat) (x y : rnum) (a b : R) (s : Z) :
 Proof. by move=> Hx Hy; apply: (rn_cmp_spec_cond _ Hx Hy) => E; exact: (rn_eqb_sound_cond Hx Hy E). Qed.
 
 End Eqb.
+
+(* ---------------------------------------------------------------- validated representations denote a number *)
+Section Valid.
+Variable R : rcfType.
+Hypothesis count_open_correct : count_open_correct_premise R.
+Local Notation zr := (@zr R).
+Local Notation pr := (@pr R).
+Local Notation qr := (@qr R).
+Local Notation rn_denotes := (@rn_denotes R).
+
+Lemma q_is_canon_qpos (q : Z * Z) : q_is_canon q = true -> qpos q.
+Proof. by rewrite /q_is_canon => /andP[/Z.ltb_lt]. Qed.
+
+(* what the drivers check on every number read from the implementation (rn_valid) guarantees that the normalised
+   representation denotes a (unique) real number *)
+Theorem rn_valid_denotes_cond (x : rnum) :
+  rn_valid x = true -> exists v : R, rn_denotes (rn_norm x) v.
+Proof.
+case: x => [q|p lo hi] /=; first by move/q_is_canon_qpos => Hq; exists (qr q).
+move=> /andP[/andP[/andP[/andP[/andP[/andP[/q_is_canon_qpos Hlo /q_is_canon_qpos Hhi] Hlt] /pis_zeroP/eqP p0]]]].
+rewrite !(psgn_q_neq0 R) // (q_lt_spec R Hlo Hhi) in Hlt * => Pl Ph /Nat.eqb_eq Hc.
+have [s0 Hsq Hroot] := psqfree_correct R p0.
+have Sl : (pr (psqfree p)).[qr lo] != 0 by rewrite -rootE Hroot rootE.
+have Sh : (pr (psqfree p)).[qr hi] != 0 by rewrite -rootE Hroot rootE.
+have := count_open_correct Hlo Hhi Hlt s0 Hsq Sl Sh; rewrite Hc.
+case Er: (roots _ _ _) => [|v [|v' vs]] // _.
+have Hin (w : R) : (w \in roots (pr (psqfree p)) (qr lo) (qr hi)) = (w == v) by rewrite Er inE.
+have : v \in roots (pr (psqfree p)) (qr lo) (qr hi) by rewrite Hin.
+rewrite in_roots in_itv /= => /and3P[rv Hv _].
+exists v; apply: denotes_of_sqfree => // w rw Hw.
+have s0' : pr (psqfree p) != 0 by rewrite pr_eq0.
+by apply/eqP; rewrite -Hin in_roots rw s0' in_itv /= Hw.
+Qed.
+
+End Valid.
